@@ -185,11 +185,21 @@ def _weights(rng, k, mode):
     return [rng.choice([1, 2, 3, -1, 0, 0.5]) for _ in range(k)]
 
 
+_DT = [0]
+
+
 def _mk(n, es, w, m=None):
+    """float CSR; when every weight is 1 the dtype cycles through float / bool / int (the shipped toy graphs are
+    bool), when the weights are small non-negative integers through float / int / uint8"""
     m = n if m is None else m
     if not es:
         return sparse.csr_matrix((n, m), dtype=float)
     a = sparse.csr_matrix((np.asarray(w, dtype=float), ([e[0] for e in es], [e[1] for e in es])), shape=(n, m))
+    _DT[0] += 1
+    if np.all(a.data == 1):
+        return a.astype([float, bool, int][_DT[0] % 3])
+    if np.all(a.data == np.round(a.data)) and a.data.min() >= 0:
+        return a.astype([float, int, np.uint8][_DT[0] % 3])
     return a
 
 
